@@ -83,7 +83,7 @@ func (StoreCohScenario) GenCase(r *rand.Rand, prop string) interface{} {
 			c.Optional = append(c.Optional, p)
 		}
 	}
-	c.RaceGets = r.IntN(3)
+	c.RaceGets = r.IntN(4)
 	nr := 1 + r.IntN(3)
 	for ri := 0; ri < nr; ri++ {
 		var round [][]CohMut
@@ -320,8 +320,11 @@ func (StoreCohScenario) Execute(sim *sched.Sim, ci interface{}, prop string, rac
 			name := fmt.Sprintf("mut%d.%d", ri+1, mi+1)
 			tasks = append(tasks, sim.Go(name, func() { cr.mutate(muts) }))
 		}
+		type raceGet struct{ id, inbox string }
+		var raceGets []raceGet
 		for g := 0; g < c.RaceGets; g++ {
-			m.request("get."+cr.rid(cohIDs[g%len(cohIDs)]), nil)
+			id := cohIDs[g%len(cohIDs)]
+			raceGets = append(raceGets, raceGet{id, m.request("get."+cr.rid(id), nil)})
 		}
 		m.quiesce()
 		for _, t := range tasks {
@@ -361,6 +364,52 @@ func (StoreCohScenario) Execute(sim *sched.Sim, ci interface{}, prop string, rac
 				h.Violate("C10", "missing-state", "", fmt.Sprintf("client holds present=%v but fresh get says present=%v; %s", cache.Present, fr.Present, desc))
 			case cache.Present && cache.Synced && !cache.SameData(fr):
 				h.Violate("C10", "stale-client", "", fmt.Sprintf("client holds %s; %s", cache.String(), desc))
+			}
+		}
+		// a client whose get raced the mutations: it holds what the response
+		// gave it, applies every event published after that response on the
+		// connection, and must equal the fresh get as well
+		for _, rg := range raceGets {
+			fr, ok := fresh[rg.id]
+			if !ok {
+				continue
+			}
+			var respSeq uint64
+			var respData []byte
+			for _, p := range m.conn.PubsSnapshot() {
+				if p.Subject == rg.inbox {
+					respSeq, respData = p.Seq, p.Data
+				}
+			}
+			if respSeq == 0 {
+				continue
+			}
+			cache, err := model.ParseGet(respData)
+			if err != nil {
+				continue
+			}
+			evals++
+			prefix := "event." + cr.rid(rg.id) + "."
+			var applied []string
+			bad := ""
+			for _, p := range m.conn.PubsSnapshot() {
+				if p.Seq <= respSeq || p.Seq >= endSeq || !strings.HasPrefix(p.Subject, prefix) {
+					continue
+				}
+				name := p.Subject[len(prefix):]
+				applied = append(applied, name+" "+string(p.Data))
+				if msg := cache.Apply(name, p.Data); msg != "" && bad == "" {
+					bad = msg
+				}
+			}
+			desc := fmt.Sprintf("config={backend:%s coll:%v trans:%s default:%v} round %d resource %s: a get racing the mutations returned %s, events published after that response %v, fresh get %s", c.Backend, c.Coll, c.Trans, c.Default, ri+1, cr.rid(rg.id), respData, applied, fr.String())
+			switch {
+			case bad != "":
+				h.Violate("C10", "inapplicable-event", "racing-get", bad+"; "+desc)
+			case cache.Present != fr.Present:
+				h.Violate("C10", "missing-state", "racing-get", desc)
+			case cache.Present && cache.Synced && !cache.SameData(fr):
+				h.Violate("C10", "stale-client", "racing-get", fmt.Sprintf("client holds %s; %s", cache.String(), desc))
 			}
 		}
 		baseline = fresh
